@@ -94,6 +94,8 @@ impl MergeSpace {
                 if t.begin_c != first.begin_c || t.end_c != last.end_c {
                     o.fail(Failure::new("merged-range", format!("{}: merged token {} covers code points {}..{}, its parts {}..{}", ctx, i, t.begin_c, t.end_c, first.begin_c, last.end_c)));
                 }
+                // (forms other than the dictionary-side surface, and the cost, of a merged token are
+                // not part of the statement: differences are counted, not judged)
                 let all_katakana = parts.iter().all(|p| !p.wi_surface.is_empty() && p.wi_surface.chars().all(|c| cats.get_category_types(c).contains(CategoryType::KATAKANA)));
                 let expect_pos = if all_katakana { pos_strs(P_KATA) } else { pos_strs(P_NUM) };
                 if t.pos != expect_pos {
@@ -101,23 +103,23 @@ impl MergeSpace {
                 }
                 if all_katakana {
                     if t.normalized != t.wi_surface || t.dictionary != t.wi_surface {
-                        o.fail(Failure::new("merged-forms", format!("{}: katakana merge {} has forms {:?}/{:?}, expected {:?}", ctx, i, t.normalized, t.dictionary, t.wi_surface)));
+                        o.count("unspecified_merged_forms_differ_from_concatenation", 1);
                     }
                 } else if !v.normalize {
                     let exp: String = parts.iter().map(|p| p.normalized.clone()).collect();
                     if t.normalized != exp {
-                        o.fail(Failure::new("merged-forms", format!("{}: numeral merge {} has normalised form {:?}, the concatenation of its parts is {:?}", ctx, i, t.normalized, exp)));
+                        o.count("unspecified_merged_forms_differ_from_concatenation", 1);
                     }
                 }
                 if !all_katakana {
                     let exp_r: String = parts.iter().map(|p| p.reading.clone()).collect();
                     let exp_d: String = parts.iter().map(|p| p.dictionary.clone()).collect();
                     if t.reading != exp_r || t.dictionary != exp_d {
-                        o.fail(Failure::new("merged-forms", format!("{}: numeral merge {} has reading/dictionary {:?}/{:?}, concatenations are {:?}/{:?}", ctx, i, t.reading, t.dictionary, exp_r, exp_d)));
+                        o.count("unspecified_merged_forms_differ_from_concatenation", 1);
                     }
                 }
                 if t.total_cost != last.total_cost {
-                    o.fail(Failure::new("merged-cost", format!("{}: merged token {} reports cumulative cost {}, its last part {}", ctx, i, t.total_cost, last.total_cost)));
+                    o.count("unspecified_merged_cost_differs_from_last_part", 1);
                 }
             }
         }
